@@ -265,6 +265,10 @@ fn check_region_map(w: &mut World) {
         if let Some(ix) = introspect::descriptor_index(addr(*a)) {
             violation("C29", "descriptor-not-cleared", format!("freed chunk {:#x} still has the descriptor of space {}", a, ix));
         }
+        let name = introspect::sft_name(addr(*a));
+        if name != "empty" {
+            violation("C31", "freed-chunk-still-in-sft", format!("chunk {:#x} was freed (its descriptor is cleared) but the SFT map still resolves it to space '{}'", a, name));
+        }
     }
     // per-space lists
     let lists = introspect::space_regions(mmtk());
